@@ -145,12 +145,16 @@ func init() {
 			s1job("modules", 4, []string{"C10"}, 2, budget),
 			s1job("components-ids", 3, []string{"C10"}, 2, budget),
 		}
-		for _, blk := range []string{"c10-eadd-eadd", "c10-join-join", "c10-tadd-same", "c10-tadd-other", "c10-asset-asset", "c07-create-vs-create"} {
+		for _, blk := range []string{"c10-eadd-eadd", "c10-join-join", "c10-tadd-same", "c10-tadd-other", "c10-asset-asset", "c07-create-vs-create", "c09-first-joins"} {
 			jobs = append(jobs, s2job(blk, b, budget))
+			// the same schedules in the -race build: an id source that is not
+			// synchronised at all has no scheduling point to interleave at; the
+			// happens-before detector sees it on any schedule with two allocations
+			jobs = append(jobs, s2jobOpt(blk, 1, budget, false, true))
 		}
 		return jobs
 	}, check.PropInfo{
-		Rule:        "(a) the id source alone through its exported API: every sequence of New / Reuse(x currently held) up to the depth, every map iteration order, plus 2-3 threads x <=2 operations under the schedule DFS; (b) whole system: S1 families (ids seen in responses, SessionState, module states) and S2 blocks of concurrent allocations; oracle: New never returns a held id, per-session participant/entity ids never repeat, type id <-> name one-to-one, asset instance ids unique, live session ids distinct",
+		Rule:        "(a) the id source alone through its exported API: every sequence of New / Reuse(x currently held) up to the depth, every map iteration order, plus 2-3 threads x <=2 operations under the schedule DFS; (b) whole system: S1 families (ids seen in responses, SessionState, module states) and S2 blocks of concurrent allocations (also in the -race build, race reports at the id sources); oracle: New never returns a held id, per-session participant/entity ids never repeat, type id <-> name one-to-one, asset instance ids unique, live session ids distinct",
 		Assumptions: append([]string{"Reuse is only ever called with an id that is currently held (what hagall does); Reuse of other ids is outside the property"}, s1Assumptions...),
 	})
 
